@@ -837,6 +837,8 @@ def run(ctx):
     fmtrules.rule_directive_bounds(ctx)
     rule_exit_path(ctx)
     rule_index_sites(ctx)
+    from . import c04
+    c04.rule_monadic_translation(ctx)
     ctx.assume("capacity conversions (usize -> u32 ids/offsets) are out of scope: inputs are below 4 GiB")
     ctx.assume("the ~100 `let .. else { unreachable!(..query-produced..) }` tests of query results in check/mod.rs, "
                "termination, and 'locations lie inside the file' are NOT decided (run-time quantities)")
